@@ -162,6 +162,33 @@ def check_status(ck, sim, ep):
         ck.violation('status:reply-differs-from-table', {'reply': have, 'table': want}, getattr(sim, 'case', None))
 
 
+def status_at_every_step(ck, mons, seed, hi):
+    """The status query after EVERY single step (trigger or delivery of one datagram) of a history that starts before the handshake: an IKE_SA is reported
+    with the values it has at that moment (an initiator knows its peer's SPI only after the IKE_SA_INIT response), and later queries follow the table."""
+    confs = [dict(), dict(ike_a={'encr': ['aes256'], 'integ': ['sha256'], 'prf': ['sha256'], 'dh': ['14', '19']}, ike_b={'encr': ['aes256'], 'integ': ['sha256'], 'prf': ['sha256'], 'dh': ['19']}), dict(v6=True)]
+    sc = walk.Scenario(seed, mons, dict(confs[hi % len(confs)]), handshake=False)
+    sim = sc.sim
+    sim.case.update({'family': 'status-at-every-step', 'history': hi})
+    if hi % 2:
+        sc.b.ctl.cookie_threshold = 0        # one more round (and one more query) before the responder SPI is known
+    script = [('A', 'acquire'), ('B', 'acquire'), ('A', 'rekey_ike'), ('B', 'expire_soft'), ('A', 'expire_hard'), ('B', 'rekey_ike'), ('A', 'delete_ike')]
+    if hi % 3 == 2:
+        script = [('B', 'acquire'), ('A', 'acquire'), ('B', 'rekey_ike'), ('B', 'delete_ike')]
+    for x, kind in script:
+        sc.trigger(x, kind)
+        for ep in (sc.a, sc.b):
+            check_status(ck, sim, ep)
+            ck.count('status.queries_between_single_steps')
+        guard = 0
+        while sim.net and guard < 60:
+            guard += 1
+            sc.deliver(0)
+            for ep in (sc.a, sc.b):
+                check_status(ck, sim, ep)
+                ck.count('status.queries_between_single_steps')
+    ck.nontrivial(('status-every-step', hi))
+
+
 def run(ck):
     tab, rout, exp = monitors.TableMonitor(ck), RoutingMonitor(ck), ExpireMonitor(ck)
     mons = [tab, rout, exp]
@@ -176,6 +203,9 @@ def run(ck):
         if ck.counters['leaves'] % 300 == 1:
             ck.sample({'actions': sc.sim.case['actions'][:40]})
 
+    for hi in range(12 if not ck.thorough() else 240):
+        if ck.mine(hi):
+            status_at_every_step(ck, mons, base + 313 * hi, hi)
     # (a) duplication patterns of rekey / delete exchanges
     lists = [[('A', 'rekey_ike')], [('B', 'rekey_ike')], [('A', 'delete_ike')], [('B', 'delete_ike')],
              [('A', 'rekey_ike'), ('B', 'rekey_ike')], [('A', 'rekey_ike'), ('B', 'delete_ike')],
@@ -661,6 +691,7 @@ def run(ck):
 
 
 def verdict(ck):
+    ck.floor('status queries between the single steps of histories that start before the handshake', ck.counters['status.queries_between_single_steps'], 400)
     ck.floor('SPI collision set-ups between two IKE_SAs of one pair of addresses', ck.counters['collision.two_ike_sas_of_one_pair_setups'], 6)
     ck.floor('table checks', ck.counters['table.steps_checked'], 20000)
     ck.floor('successor checks', ck.counters['table.successor_checks'], 2000)
